@@ -16,6 +16,7 @@ CONSTANTS
   DlEnds = {0}
   PreEst = TRUE
   BlockOnRoom = FALSE
+  IdTop = FALSE
   TrackKinds = {"wsp0","wss0","rsp0","rss0","wfollow0","rfollow0"}
 SPECIFICATION Spec
 VIEW view
